@@ -23,7 +23,7 @@ CLAIMS = {
         text="For all inputs: every AST slot that can hold a Token is reached by each of the three comment/whitespace walkers (so exactly the "
              "selected trivia kind can disappear everywhere), the walkers mutate nothing but Token trivia (code tokens cannot change), the retain "
              "predicates keep every trivia of the other kind, append_text_comment shifts lines only for location=start, and the emitted long-comment "
-             "closer is the value tested absent from the text. Regex semantics of `except` and single-line text content are not decided. The generator's line/long comment classifier is evaluated on the opener grammar `--[=*[` up to level 6; the comment text builder on every subset of closers occurring in the text. No generator writes `{{` for an interpolated value starting with a table (36 trivia layouts), and a comment kept next to a `-` never absorbs it.",
+             "closer is the value tested absent from the text. Regex semantics of `except` and single-line text content are not decided. The generator's line/long comment classifier is evaluated on the opener grammar `--[=*[` up to level 6; the comment text builder on every subset of closers occurring in the text. No generator writes `{{` for an interpolated value starting with a table (36 trivia layouts), and a comment kept next to a `-` never absorbs it. Every Regex compiled by a rule is one configured pattern as given; every function of the line-keeping generator that appends text consults the pending-line-comment flag; a one-line header text stays a line comment.",
         note="Coverage is per (ADT, slot) over the walker family; std mutators classified by name. " + TB,
         ref="DESIGN.md §3 C18"),
 }
@@ -42,7 +42,7 @@ CLAIMS.update({
         technique="static analysis: token-slot coverage of shift_token_line, Position variant tables, MIR path rule for inserted lines, who-may-write rule on the generator's output/line counter; finite-domain evaluation of the anchored decision/transfer functions from their typed tree (abstract interpretation over enumerated abstract domains, sa/peval.py)",
         text="For all inputs: shift_token_line reaches every token slot; replacing token content keeps the recorded line; inserted lines are "
              "compensated exactly where they are inserted (append_text_comment only at start; bundler running total); the token-based generator's "
-             "line counter is exact and monotone and padding precedes content; no token is shifted through two routes in one traversal; lines::block_total counts a block whose last token spans several lines correctly. Does not decide that arbitrary pipelines never emit a token whose line is already passed. The line counter and the placement of tokens are decided by evaluating the line-keeping generator on 336 token/trivia scenarios (counter = start + newlines written; every token on max(recorded line, line reached)).",
+             "line counter is exact and monotone and padding precedes content; no token is shifted through two routes in one traversal; lines::block_total counts a block whose last token spans several lines correctly. Does not decide that arbitrary pipelines never emit a token whose line is already passed. The line counter and the placement of tokens are decided by evaluating the line-keeping generator on 336 token/trivia scenarios (counter = start + newlines written; every token on max(recorded line, line reached)). The amount append_text_comment hands to ShiftTokenLine equals the line breaks of the header it inserts (texts with and without a trailing newline, inline or from a file, two passes over one rule object).",
         note="Unrecognised idioms for writing the output buffer fail closed. " + TB,
         ref="DESIGN.md §3 C04"),
     "C12": dict(
@@ -50,7 +50,7 @@ CLAIMS.update({
         text="Narrow structural part of crash-freedom, for all inputs: foreign-text token references are always replaced before a required block is "
              "walked/spliced, replace_referenced_tokens reaches every token slot, the converter's own call graph is acyclic (iterative conversion), "
              "Parser::parse is fallible and panic-free and maps both error kinds, the worker never unwraps rule/parse results. Panic-freedom of "
-             "arbitrary rule pipelines is NOT decided (value reasoning); a census of panic sites is informational only. The text given to full_moon is Parser::parse's own parameter (copies allowed, edits not), because recorded token ranges index the caller's text.",
+             "arbitrary rule pipelines is NOT decided (value reasoning); a census of panic sites is informational only. The text given to full_moon is Parser::parse's own parameter (copies allowed, edits not), because recorded token ranges index the caller's text. The literal readers are evaluated with panics observable on every escape form at its boundary values: none panics, valid literals get Luau's bytes; their Results are never unwrapped in the converter.",
         note="full_moon's own recursion is outside the claim. " + TB,
         ref="DESIGN.md §3 C12"),
 })
@@ -95,7 +95,7 @@ CLAIMS.update({
         text="For all programs, the three mechanisms the property anchors are wired at every site: each dropping/folding act of the default rules is "
              "control-dependent on has_side_effects, each operand hoisted into its parent's place is parenthesised under can_return_multiple_values "
              "(two sites pinned by existing tests are known findings), kept effectful expressions stay in order, every default rule reaches all nesting "
-             "positions (C07.visit), index-removal loops run in reverse, if-expression side effects cover every part that may run. Behavioural equivalence of the rewrites is NOT decided. The scope visitors' event order (values before the declared names, iterator expressions before the loop scope) is checked under this property too (shared with C09.order).",
+             "positions (C07.visit), index-removal loops run in reverse, if-expression side effects cover every part that may run. Behavioural equivalence of the rewrites is NOT decided. The scope visitors' event order (values before the declared names, iterator expressions before the loop scope) is checked under this property too (shared with C09.order). convert_index_to_field is evaluated on `t[K]`: a key with a side effect or that is not an identifier stays an index.",
         note="has_side_effects/can_return_multiple_values/evaluate trusted as analyses (skeleton under C08). " + TB, ref="DESIGN.md §3 C01"),
     "C02": dict(
         technique="static analysis: decision tables extracted from the precedence/associativity/parenthesis functions and should_break_with_space (pattern ranges expanded) vs independent Lua grammar/lexer tables; guard-before-act rules in the three generators; who-may table for fusion-check bypasses; finite-domain evaluation of the anchored decision/transfer functions from their typed tree (abstract interpretation over enumerated abstract domains, sa/peval.py)",
@@ -109,7 +109,7 @@ CLAIMS.update({
         technique="static analysis: visitor-driver typestate from resolved generic arguments, provenance (source-call) rule on the module key, MIR push/pop pairing, error-recording rules",
         text="For all module graphs: every traversal that can inline a require tracks scopes, the path used as module key always comes from the locator "
              "applied to this call's literal and the current source (no memo), the cycle stack is popped on every exit, every failure is recorded and "
-             "reported, module order is insertion order. The wrapper's run-time semantics is not decided. A required module is handed back only after the scope-tracking walk (MIR must-pass), and the module key passes through a canonicalising function (two spellings of one file give one module).", note=TB, ref="DESIGN.md §3 C05"),
+             "reported, module order is insertion order. The wrapper's run-time semantics is not decided. A required module is handed back only after the scope-tracking walk (MIR must-pass), and the module key passes through a canonicalising function (two spellings of one file give one module). No explicit panic macro in the require path: every file-system state answers with an error value.", note=TB, ref="DESIGN.md §3 C05"),
     "C06": dict(
         technique="static analysis: subset relation between variant tables (duplicated-without-temporary vs constant-false has_side_effects), visitor typestate, multi-value guards, fold-direction sibling rule, conservative-unknown rule; finite-domain evaluation of the anchored decision/transfer functions from their typed tree (abstract interpretation over enumerated abstract domains, sa/peval.py)",
         text="For all programs: what remove_compound_assignment duplicates is effect-free by has_side_effects' own table, scope-dependent lowering "
@@ -122,7 +122,7 @@ CLAIMS.update({
         text="For all expressions: opaque leaves evaluate to Unknown, calls are always effectful, unknown operands may carry metatables, multi-value "
              "sources are flagged, truthiness is unknown exactly for Unknown and nothing unknown is materialised; floats are never compared through total_cmp/EPSILON-style APIs "
              "nor formatted through Rust's Display; if-expression side effects ask about every part that may run. Numeric/string results are NOT decided "
-             "(they need execution).", note="Only the table skeleton. " + TB, ref="DESIGN.md §3 C08"),
+             "(they need execution). The number -> string coercion of `..` is tabulated against `%.14g` on 36 doubles (declining is allowed; negative zero is `-0`).", note="Only the table skeleton. " + TB, ref="DESIGN.md §3 C08"),
     "C09": dict(
         technique="static analysis: event-order rules on both scope visitors, complete identifier-slot classification over the AST type graph, guard rules on name generation and recycling; finite-domain evaluation of the anchored decision/transfer functions from their typed tree (abstract interpretation over enumerated abstract domains, sa/peval.py)",
         text="For all programs: Lua's visibility rules hold as ordering constraints between push/insert/visit/pop in both scope visitors, every "
